@@ -246,8 +246,9 @@ def decide(pid, prop, tier, seed, results, undecided, t0, load_expect, findings)
         'wall_s': round(wall, 2),
         'violations': len(confirmed),
     }
-    os.makedirs(os.path.join(OUT, 'evidence'), exist_ok=True)
-    json.dump(ev, open(os.path.join(OUT, 'evidence', pid + '.json'), 'w'), indent=1)
+    if pid != 'ALL':   # `./check ALL` is a maintenance run over every unit, not a property: it writes no evidence file
+        os.makedirs(os.path.join(OUT, 'evidence'), exist_ok=True)
+        json.dump(ev, open(os.path.join(OUT, 'evidence', pid + '.json'), 'w'), indent=1)
     for l in lines:
         print(l)
     print('property %s: %d obligations, %d discharged, %d violations, %d known findings, %d undecided; units %s; %.1fs'
